@@ -235,7 +235,7 @@ class _Places(dict):
     kinds = None
 
 
-def _judge_bzr(ctx, S, T, res, pk, spec, flags, fail):
+def _judge_bzr(ctx, S, T, res, pk, spec, flags, fail, thirds=None):
     changes = res[1]
     unfiltered = spec is None
     S2 = _apply_bzr(ctx, S, T, changes, pk, fail, unfiltered, flags["include_unchanged"])
@@ -290,20 +290,43 @@ def _judge_bzr(ctx, S, T, res, pk, spec, flags, fail):
     if any(len(v) > 1 for v in places.values()):
         # a reported entry lands where an unreported source entry still sits: the statement only speaks of parents, so this is counted, not judged
         ctx.hist("noncore:place-taken-twice")
-    # every reported entry's new parent is itself reported, or sits unchanged where the source has it
+    # every ancestor in the target of a reported (really changed) entry is itself reported, or sits unchanged where the source
+    # has it ("the parents in the target tree of the specific files up to and including the root are always evaluated for
+    # changes too"): the direct parent is needed for a valid tree, the ones above it for the reported paths to be true
     rep = {c[0] for c in changes}
+    ctx.count("closure_ancestors")
     for c in changes:
-        if not c[3][1] or c[4][1] is None or c[4][1] in rep or _is_unchanged(c):
+        if not c[3][1] or c[4][1] is None or _is_unchanged(c):
             continue  # (an unchanged entry listed because include_unchanged was asked needs nothing)
-        P = c[4][1]
-        s, t = S.get(P), T.get(P)
-        if t is None:
-            fail("closure:parent-not-in-target", "new parent %r of %r is not in the target tree" % (P, c[1][1]), c)
-            return
-        if s is None or (s["parent"], s["name"]) != (t["parent"], t["name"]):
-            fail("closure:parent-changed-unreported", "new parent %r of reported entry %r is %s between the trees but not reported" % (
-                t["path"], c[1][1], "added" if s is None else "moved (%r -> %r)" % (s["path"], t["path"])), c)
-            return
+        P, depth = c[4][1], 0
+        while P is not None and depth < 50:
+            s, t = S.get(P), T.get(P)
+            if t is None:
+                if depth == 0:
+                    fail("closure:parent-not-in-target", "new parent %r of %r is not in the target tree" % (P, c[1][1]), c)
+                    return
+                break
+            if P not in rep:
+                which = "parent" if depth == 0 else "ancestor"
+                if s is None or (s["parent"], s["name"]) != (t["parent"], t["name"]):
+                    fail("closure:%s-changed-unreported" % which, "%s %r of reported entry %r is %s between the trees but not reported" % (
+                        "new parent" if depth == 0 else "target ancestor", t["path"], c[1][1],
+                        "added" if s is None else "moved (%r -> %r)" % (s["path"], t["path"])), c)
+                    return
+                if t["kind"] == "directory" and s["kind"] != "directory" and not _below_broken_dir(T, P, False):
+                    fail("closure:%s-kind-changed-unreported" % which, "target ancestor %r of reported entry %r was a %s in the source, is a directory in the target, but is not reported" % (
+                        t["path"], c[1][1], s["kind"]), c)
+                    return
+            P, depth = t["parent"], depth + 1
+    # ---- selection: a really changed entry is in the list because the filter selects it (its id sits at a named path in
+    # either tree, or below such an entry in either tree) or because a reported entry needs it (see _unrelated)
+    ctx.count("filter_selection")
+    bad = _unrelated(spec, S, T, changes)
+    if bad:
+        fail("filter:unrelated-entry-reported:%s" % _why_unrelated(bad[0], spec, S, T, changes, thirds), "%r is reported although the filter does not select it (neither it nor an ancestor sits at a named path in either tree "
+             "or shares a path with such an entry) and no reported entry needs it (not a target ancestor, not the source occupant of a reported path, not a child of a directory that went away)" % (
+                 [q for q in bad[0][1]],), bad[0])
+        return
     # ---- completeness: everything at or below a named path that differs must be reported
     ctx.count("filter_complete")
     rep = {c[0] for c in changes}
@@ -323,6 +346,91 @@ def _judge_bzr(ctx, S, T, res, pk, spec, flags, fail):
             fail("filter:change-inside-filter-missing", "%r is at/below a named path and %s but is not reported" % (
                 (t or s)["path"], "differs" if differs else "include_unchanged was asked"), {"spec": spec})
             return
+
+
+def _selected_ids(spec, *views):
+    """The ids a filter may select - the documented rule, read generously: every id sitting at a named path in either tree,
+    everything below such an id in either tree, and (what the path-driven searches of the dirstate do when they follow a
+    renamed entry to its other path) whatever sits in the other tree at a path a selected id has in one of them;
+    repeated until nothing is added."""
+    kids = {}
+    at = [{} for _ in views]
+    for n, V in enumerate(views):
+        for i, e in V.items():
+            at[n][e["path"]] = i
+            if e["parent"] is not None:
+                kids.setdefault(e["parent"], set()).add(i)
+    named = set(spec)
+    sel = {i for V in views for i, e in V.items() if e["path"] in named or "" in named}
+    todo = list(sel)
+    while todo:
+        i = todo.pop()
+        more = set(kids.get(i, ()))
+        for V in views:
+            if i in V:
+                more.update(a[V[i]["path"]] for a in at if V[i]["path"] in a)
+        for k in more:
+            if k not in sel:
+                sel.add(k)
+                todo.append(k)
+    return sel
+
+
+def _unrelated(spec, S, T, changes, thirds=()):
+    """Really changed entries of a filtered list that nothing accounts for: not selected by the filter and not needed by an
+    accounted-for entry of the same list (target ancestor of it; source occupant of its, or of one of its target ancestors',
+    new path; source child of a reported directory that is no directory any more / is gone)."""
+    sel = _selected_ids(spec, S, T, *thirds)
+    byid = {}
+    for c in changes:
+        if c[3] != (False, False):
+            byid.setdefault(c[0], c)
+    # (an entry on the way from the root to a named path counts as selected too: "the parents in the target tree of the specific
+    # files up to and including the root of the tree are always evaluated" - also when the named path itself is unversioned)
+    ok = {i for i, c in byid.items() if i in sel or any(q is not None and (q == "" or n.startswith(q + "/")) for q in c[1] for n in spec)}
+    pending = {i for i in byid if i not in ok and not _is_unchanged(byid[i])}
+    if not pending:
+        return []
+    spath = {e["path"]: i for i, e in S.items()}
+    progress = True
+    while pending and progress:
+        progress = False
+        anc, newpaths, gone_dirs = set(), set(), set()
+        for i in ok:
+            c = byid[i]
+            if c[6][0] == "directory" and c[6][1] != "directory":
+                gone_dirs.add(i)
+            t = T.get(i)
+            n = 0
+            while t is not None and n < 50:
+                newpaths.add(t["path"])
+                if t["parent"] is None:
+                    break
+                anc.add(t["parent"])
+                t = T.get(t["parent"])
+                n += 1
+        for i in sorted(pending, key=repr):
+            s = S.get(i)
+            if i in anc or (s is not None and (spath.get(s["path"]) == i and s["path"] in newpaths or s["parent"] in gone_dirs)):
+                ok.add(i)
+                pending.discard(i)
+                progress = True
+    return [byid[i] for i in sorted(pending, key=repr)]
+
+
+def _why_unrelated(c, spec, S, T, changes, thirds):
+    """Names what an unaccounted-for entry has to do with the filter after all (the mechanism part of the key)."""
+    if thirds and c not in _unrelated(spec, S, T, changes, thirds):
+        return "id-at-named-path-only-in-another-dirstate-parent"
+    for q in c[1]:
+        while q:
+            d, _, b = q.rpartition("/")
+            for n in spec:
+                nd, _, nb = n.rpartition("/")
+                if nd == d and b != nb and b.startswith(nb):
+                    return "below-sibling-whose-name-starts-with-named-name"
+            q = d
+    return "no-relation"
 
 
 def _inside_any(spec, path):
@@ -786,7 +894,7 @@ def _flag_sets(rng, n, can_unversioned):
     return allf[:n]
 
 
-def _pair(ctx, rng, pk, src, tgt, tgt_is_wt, git, disk, revpair, log):
+def _pair(ctx, rng, pk, src, tgt, tgt_is_wt, git, disk, revpair, log, thirds=None):
     """Judge one (source, target) pair over flag / filter combinations.  Trees are locked by the caller."""
     from breezy.bzr.inventorytree import InterInventoryTree
     from breezy.tree import InterTree
@@ -852,7 +960,7 @@ def _pair(ctx, rng, pk, src, tgt, tgt_is_wt, git, disk, revpair, log):
                         d["entry"] = _j(entry) if isinstance(entry, tuple) else entry
                     ctx.fail("InterInventoryTree:%s" % key, "%s [%s, specific_files=%r, %s]" % (msg, pk, spec, ",".join(k for k, v in flags.items() if v)), d)
                     return False
-                _judge_bzr(ctx, S, T, r2, pk, spec, flags, fail2)
+                _judge_bzr(ctx, S, T, r2, pk, spec, flags, fail2, thirds)
         if r1[0] == "exc":
             if r1[1] == "PathsNotVersionedError":
                 ctx.count("refusal_checked")
@@ -883,7 +991,7 @@ def _pair(ctx, rng, pk, src, tgt, tgt_is_wt, git, disk, revpair, log):
                     fu = full_cache[key] = rf[1]
             _judge_git(ctx, S, T, r1, pk, spec, flags, fail, fu, disk)
         else:
-            _judge_bzr(ctx, S, T, r1, pk, spec, flags, fail)
+            _judge_bzr(ctx, S, T, r1, pk, spec, flags, fail, thirds)
         if flags["want_unversioned"]:
             _judge_unversioned(ctx, T, r1, disk, git, spec, fail)
         sh = _shape(r1[1])
@@ -928,13 +1036,19 @@ def case(ctx):
         return "null:" if r == null else "m0" if r == merged else "r#%d" % revs.index(r)
     with wt.lock_read():
         basis = wt.basis_tree()
+        other = wt.revision_tree(merged) if merged else None
         with basis.lock_read():
-            _pair(ctx, rng, "basis-vs-working" + ("(2 parents)" if merged else ""), basis, wt, True, git, disk, ["basis", "wt"], log)
-        if merged:
-            # second parent stored in the dirstate: the fast path runs with source_index 2
-            other = wt.revision_tree(merged)
-            with other.lock_read():
-                _pair(ctx, rng, "pending-parent-vs-working", other, wt, True, git, disk, ["m0", "wt"], log)
+            # (with a pending merge the dirstate holds a third tree: its view only serves to name the mechanism of a finding)
+            thirds = None
+            if other is not None:
+                with other.lock_read():
+                    thirds = [_view(other, False, git)]
+            _pair(ctx, rng, "basis-vs-working" + ("(2 parents)" if merged else ""), basis, wt, True, git, disk, ["basis", "wt"], log, thirds)
+            if merged:
+                # second parent stored in the dirstate: the fast path runs with source_index 2
+                thirds = [_view(basis, False, git)]
+                with other.lock_read():
+                    _pair(ctx, rng, "pending-parent-vs-working", other, wt, True, git, disk, ["m0", "wt"], log, thirds)
         # revision tree pairs: adjacent, distant, reversed, against the empty tree
         ids = list(revs) + ([merged] if merged else [])
         pairs = []
